@@ -722,6 +722,11 @@ def oracles (st : WorldSt) (pd : Pending) (post : Bool := false) : List (String 
         match pairViewOf (curVal st s!"pair {d}") with
         | some v => out := out ++ fails "C14" "swap hook accepted from a token that is not an asset of the pair" (v.a0 = .token t || v.a1 = .token t)
         | none => pure ()
+    | .router _ _ (.receive _ _ .garbage) =>
+      out := out ++ [("C14", "the router's Receive accepted a payload that is not a route (an internal or malformed message)")]
+    | .tokSend _ _ d _ .garbage =>
+      if d = st.w.router then
+        out := out ++ [("C14", "the router's cw20 hook accepted a payload that is not a route (an internal or malformed message)")]
     | .router s _ (.swapOp ..) => out := out ++ fails "C14" "single-hop message accepted from outside the router" (s = st.w.router)
     | .router s _ (.assertMin ..) => out := out ++ fails "C14" "minimum-receive message accepted from outside the router" (s = st.w.router)
     | _ => pure ()
@@ -821,6 +826,11 @@ def worldLine (st : WorldSt) (line : String) : WorldSt × List String × String 
     let w2 := if tc == "" then w1 else { w1 with tokenCode := tc.toNatD, envTokenCode := tc.toNatD }
     ({ st with w := { w2 with facAddr := f.toNatD, owner := ((o.drop 6).toString).toNatD } }, [], fam, none)
   | ["router", r] => ({ st with w := { st.w with router := r.toNatD } }, [], fam, none)
+  | ["bad", a] =>
+    -- bad <id>: the account id stands for an address string that fails `addr_validate` (environment fact)
+    let id := a.toNatD
+    let w0 := st.w
+    ({ st with w := { w0 with badAddr := fun x => x == id || w0.badAddr x } }, [], fam, none)
   | ["asset", a, raw, nm] =>
     let asset := parseAsset a
     let rawB := unhex ((raw.drop 4).toString)
